@@ -14,6 +14,7 @@ int lay_check(ldb_t *db, const char *dbdir, const kcfg_t *cfg, lay_stats_t *stat
 /* directory == live files, live logs taken from the MANIFEST's log number; 1 ok */
 int lay_reported_equals_manifest(ldb_t *db, const char *dbdir, char *err, size_t en);
 int lay_reported_tables_exist(ldb_t *db, const char *dbdir, char *err, size_t en);
+int lay_current_names_existing_manifest(const char *dbdir, char *err, size_t en);
 int lay_manifest_tables_exist(const char *dbdir, char *err, size_t en);
 int lay_files_exact_check(ldb_t *db, const char *dbdir, char *err, size_t en);
 
